@@ -9,6 +9,20 @@ static double tol_const(TasmanianSparseGrid const &g){
     return 2e3;
 }
 
+std::vector<double> interior_nudged(TasmanianSparseGrid const &g, std::vector<double> const &x){
+    if (!g.isSetDomainTransfrom() && !g.isSetConformalTransformASIN()) return x;
+    int d = g.getNumDimensions();
+    std::vector<double> lo, hi; domain_box(g, lo, hi);
+    std::vector<double> xe = x;
+    for(size_t q=0; q<x.size(); q++){
+        size_t j = q % (size_t) d;
+        double nudge = 8.0 * std::numeric_limits<double>::epsilon() * (std::fabs(lo[j]) + std::fabs(hi[j]) + (hi[j] - lo[j]));
+        if (x[q] <= lo[j] + nudge) xe[q] = lo[j] + nudge;
+        if (x[q] >= hi[j] - nudge) xe[q] = hi[j] - nudge;
+    }
+    return xe;
+}
+
 double check_reproduction(TasmanianSparseGrid const &g, CaseCtx &c, Rng &rng, std::string const &prefix, std::string const &after){
     int d = g.getNumDimensions(), m = g.getNumOutputs(), n = g.getNumLoaded();
     if (n == 0 || m == 0) return 0.0;
@@ -47,8 +61,9 @@ double check_reproduction(TasmanianSparseGrid const &g, CaseCtx &c, Rng &rng, st
             double width = hi[(size_t) j] - lo[(size_t) j];
             double delta = 16.0 * eps * (std::fabs(lo[(size_t) j]) + std::fabs(hi[(size_t) j]) + width) + (cf ? 1e-10 * width : 0.0);
             double toward = (x[q] < 0.5 * (lo[(size_t) j] + hi[(size_t) j])) ? 1.0 : -1.0;
-            if (x[q] <= lo[(size_t) j]) xe[q] = std::nextafter(std::nextafter(x[q], hi[(size_t) j]), hi[(size_t) j]);
-            if (x[q] >= hi[(size_t) j]) xe[q] = std::nextafter(std::nextafter(x[q], lo[(size_t) j]), lo[(size_t) j]);
+            double nudge = 8.0 * eps * (std::fabs(lo[(size_t) j]) + std::fabs(hi[(size_t) j]) + width);
+            if (x[q] <= lo[(size_t) j] + nudge) xe[q] = lo[(size_t) j] + nudge;
+            if (x[q] >= hi[(size_t) j] - nudge) xe[q] = hi[(size_t) j] - nudge;
             xp[q] = xe[q] + toward * delta;
             xm[q] = xe[q] - toward * delta;
             if (xm[q] < lo[(size_t) j] || xm[q] > hi[(size_t) j]) xm[q] = xe[q] + 2.0 * toward * delta; // stay inside the domain
